@@ -181,6 +181,11 @@ def check(prog, run):
     if not rec:
         run.report(r, "%s:NoFragmentCyclesChecker.leave_document:not-transitive" % RULES, ld.where(), "cycle search does not follow spreads transitively")
 
+    # ---- R8 symmetric pairwise comparison in the field-merging rule
+    r8 = run.rule("R8", "the field-merging rule compares the two selection sets symmetrically: every helper call comparing side 1 "
+                        "with side 2 has its mirror, and no call compares a side with itself", 3)
+    symmetric_comparisons(prog, run, r8)
+
     # ---- R4 per-usage records
     r = run.rule("R4", "variable usages checked by VariablesInAllowedPositionChecker come from a container that records every "
                        "usage (appended per occurrence), not from a mapping keyed by the variable name alone", 1)
@@ -317,3 +322,115 @@ def closure_breaks(prog, run, r, fns):
                         run.report(r, "%s:%s:closure-stops-early(%s)" % (f.module.name, f.qualname, t), f.where(st),
                                    "the reachability loop `%s` ends (`%s`) when `%s`: elements queued or listed after it are never "
                                    "examined, so the result depends on the order of fragments/spreads" % (norm_stmt(n), type(st.body[-1]).__name__.lower(), t))
+
+
+def _side(name):
+    if name.endswith("_1"):
+        return 1
+    if name.endswith("_2"):
+        return 2
+    return None
+
+
+def side_pairs(fn_node, callee_names):
+    """For calls of the named comparison helpers inside ``fn_node``: the tuple of 'sides' (1/2) of their arguments, where
+    a side comes from a `_1`/`_2` suffixed name, directly or through loop variables iterating over such names
+    (including the tuple-of-pairs idiom)."""
+    out = []
+
+    def arg_side(a, env):
+        if isinstance(a, ast.Name):
+            if a.id in env:
+                return env[a.id]
+            return _side(a.id)
+        if isinstance(a, ast.Call) and a.args:
+            # _at(fragment_2, i), enumerate(x), deduplicate(x): side of the first argument
+            return arg_side(a.args[0], env)
+        if isinstance(a, ast.Subscript):
+            return arg_side(a.value, env)
+        return None
+
+    def walk(stmts, env):
+        for st in stmts:
+            if isinstance(st, ast.For):
+                it, tgt = st.iter, st.target
+                for n in ast.walk(it):
+                    if isinstance(n, ast.Call) and isinstance(n.func, ast.Name) and n.func.id in callee_names:
+                        sides = tuple(x for x in (arg_side(a, env) for a in n.args) if x is not None)
+                        out.append((n.func.id, sides, n))
+                if isinstance(it, ast.Tuple) and all(isinstance(e, ast.Tuple) for e in it.elts) and isinstance(tgt, ast.Tuple):
+                    for e in it.elts:
+                        env2 = dict(env)
+                        for t, v in zip(tgt.elts, e.elts):
+                            if isinstance(t, ast.Name):
+                                env2[t.id] = arg_side(v, env)
+                        walk(st.body, env2)
+                    continue
+                env2 = dict(env)
+                if isinstance(it, ast.Call) and isinstance(it.func, ast.Name) and it.func.id == "_cross" and isinstance(tgt, ast.Tuple) and len(it.args) == 2:
+                    for t, v in zip(tgt.elts, it.args):
+                        if isinstance(t, ast.Name):
+                            env2[t.id] = arg_side(v, env)
+                else:
+                    side = arg_side(it, env)
+                    names = [tgt] if isinstance(tgt, ast.Name) else (list(tgt.elts) if isinstance(tgt, ast.Tuple) else [])
+                    for t in names[-1:]:
+                        if isinstance(t, ast.Name):
+                            env2[t.id] = side
+                walk(st.body, env2)
+            elif isinstance(st, (ast.If, ast.While, ast.With, ast.Try)):
+                for field in ("body", "orelse", "finalbody"):
+                    walk(getattr(st, field, []) or [], env)
+                for h in getattr(st, "handlers", []) or []:
+                    walk(h.body, env)
+            else:
+                for n in ast.walk(st):
+                    if isinstance(n, ast.Call) and isinstance(n.func, ast.Name) and n.func.id in callee_names:
+                        sides = tuple(x for x in (arg_side(a, env) for a in n.args) if x is not None)
+                        out.append((n.func.id, sides, n))
+    walk(fn_node.body, {})
+    return out
+
+
+def symmetric_comparisons(prog, run, r):
+    """Pairwise comparison helpers of the field-merging rule must be applied symmetrically: for every call comparing side a
+    with side b (a != b) the mirrored call exists, and no call compares a side with itself."""
+    modname = "py_gql.validation.rules.overlapping_fields_can_be_merged"
+    checks = [("_conflicts_between_subselections", ("_conflicts_between_fields_and_fragment", "_conflicts_between_fragments", "_conflicts_between")),
+              ("_conflicts_between_fragments", ("_conflicts_between_fragments", "_conflicts_between"))]
+    for fname, callees in checks:
+        f = prog.get_func(modname, fname)
+        run.looked_at(f)
+        pairs = side_pairs(f.node, callees)
+        by_callee = {}
+        for callee, sides, n in pairs:
+            if len(sides) >= 2:
+                by_callee.setdefault(callee, []).append((sides[:2], n))
+        for callee, lst in sorted(by_callee.items()):
+            got = sorted({sd for sd, _ in lst})
+            r.instance("%s -> %s compares sides %s" % (fname, callee, got))
+            for sd, n in lst:
+                if sd[0] == sd[1]:
+                    run.report(r, "%s:%s:same-side(%s:%s)" % (modname, fname, callee, sd), f.where(n),
+                               "%s compares side %d with side %d of the pair through %s: the cross comparison with the other side is "
+                               "missing, so a conflict is found or missed depending on which selection comes first" % (fname, sd[0], sd[1], callee))
+            sset = {sd for sd, _ in lst}
+            # a helper whose two compared parameters have different types (fields vs fragment) is not symmetric in
+            # itself, so both directions must be called; same-typed helpers (fragment vs fragment) are symmetric relations
+            cdef = prog.get_func(modname, callee)
+            sided_idx = [i for i, a in enumerate(lst[0][1].args) if True]
+            anns = []
+            for i, a in enumerate(lst[0][1].args):
+                nm = a.id if isinstance(a, ast.Name) else None
+                if i < len(cdef.node.args.args) and cdef.node.args.args[i].annotation is not None:
+                    anns.append((i, ast.unparse(cdef.node.args.args[i].annotation)))
+            heterogeneous = False
+            sided_positions = [i for i, a in enumerate(lst[0][1].args) if (isinstance(a, ast.Name) and (_side(a.id) or True))]
+            # positions of the two sided arguments = last two positional params that are not ctx/flags
+            cand = [t for i, t in anns if t not in ("Context", "bool")]
+            if len(cand) >= 2 and cand[0] != cand[1]:
+                heterogeneous = True
+            for sd in sorted(sset):
+                if heterogeneous and sd[0] != sd[1] and (sd[1], sd[0]) not in sset:
+                    run.report(r, "%s:%s:asymmetric(%s:%s)" % (modname, fname, callee, sd), f.where(),
+                               "%s applies %s to sides %s but never to %s" % (fname, callee, sd, (sd[1], sd[0])))
